@@ -118,29 +118,9 @@ class SP(Robot):
 
         #disp([bT, tT])
 
-        for i in range(6):
-            self._bottom_joint_angles_init[i] = fsr.globalToLocal(
-                self.getBottomT(),
-                tm([self._top_joints_space.T[i][0], self._top_joints_space.T[i][1],
-                self._top_joints_space.T[i][2], 0, 0, 0]))
-            self._top_joint_angles_init[i] = fsr.globalToLocal(
-                self.getTopT(),
-                tm([self._bottom_joints_space.T[i][0], self._bottom_joints_space.T[i][1],
-                self._bottom_joints_space.T[i][2], 0, 0, 0]))
-
-        t1 = fsr.globalToLocal(self.getTopT() @ tm([0, 0, -self.top_plate_thickness, 0, 0, 0]),
-            tm([self._top_joints_space[0, 0],
-            self._top_joints_space[1, 0],
-            self._top_joints_space[2, 0], 0, 0, 0]))
-        t2 = fsr.globalToLocal(self.getTopT() @ tm([0, 0, -self.top_plate_thickness, 0, 0, 0]),
-            tm([self._top_joints_space[0, 2],
-            self._top_joints_space[1, 2],
-            self._top_joints_space[2, 2], 0, 0, 0]))
-        t3 = fsr.globalToLocal(self.getTopT() @ tm([0, 0, -self.top_plate_thickness, 0, 0, 0]),
-            tm([self._top_joints_space[0, 4],
-            self._top_joints_space[1, 4],
-            self._top_joints_space[2, 4], 0, 0, 0]))
-        self.reorients = [t1, t2, t3]
+        #The pose the platform is built in is its neutral pose
+        self._neutral_plate_transform_local = self.getCurrentLocalTransform()
+        self._setNeutralReferences()
 
     """
     Getters and Setters
@@ -440,6 +420,26 @@ class SP(Robot):
         return self.getTopT()
 
 
+    def _setNeutralReferences(self) -> None:
+        """
+        Record the neutral-pose reference points that depend on the plate-local joint tables.
+
+        For every leg: where its top joint sits in the bottom plate frame and where its bottom
+        joint sits in the top plate frame while the platform is neutral (the directions joint
+        deflection is measured from), plus the three top joint reference points used to
+        re-orient the top plate after un-inverting it.
+        Meant to be called internally only, whenever the plate-local joint tables change.
+        """
+        neutral = self._neutral_plate_transform_local
+        neutral_inv = neutral.inv()
+        for i in range(6):
+            self._bottom_joint_angles_init[i] = neutral @ tm([self._top_joints_local[0, i],
+                self._top_joints_local[1, i], self._top_joints_local[2, i], 0, 0, 0])
+            self._top_joint_angles_init[i] = neutral_inv @ tm([self._bottom_joints_local[0, i],
+                self._bottom_joints_local[1, i], self._bottom_joints_local[2, i], 0, 0, 0])
+        self.reorients = [tm([self._top_joints_local[0, i], self._top_joints_local[1, i],
+            self._top_joints_local[2, i] + self.top_plate_thickness, 0, 0, 0]) for i in (0, 2, 4)]
+
     def spinCustom(self, rot : float, degrees : bool = False) -> None:
         """
         Rotate platform by radian amount while maintaining orientation in global space.
@@ -463,6 +463,8 @@ class SP(Robot):
         #The Raphson FK solver works from these plate-local tables: keep them in step
         self._bottom_joints_init = self._bottom_joints_local.conj().transpose()
         self._top_joints_init = self._top_joints_local.conj().transpose()
+        #So do the neutral-pose reference points of the joint deflection limit and of un-inverting
+        self._setNeutralReferences()
         #Plate poses are unchanged; recompute joint positions and leg lengths for them
         self.IK()
 
